@@ -138,6 +138,11 @@ func famC04(rn *Runner) {
 		uo := unorderedOperands(rn)
 		for pi, p := range d.Paths {
 			// node-sets whose stored order is not document order; attributes and namespace nodes of one element together
+			// sum() converts the string-value of EACH node with number(): exponents, a leading +, Infinity, hex are NaN there too
+			if pi%4 == 0 {
+				rn.scalar(d, env, p, call("sum", &EPath{Steps: []*Stp{{Axis: "descendant-or-self", Test: NodeTest{Kind: "node"}, Abbrev: true}, {Axis: "child", Test: NodeTest{Kind: "text"}, Abbrev: true}}}), "sum-converts-with-number", "sum() applies number() to the string-value of each node", true)
+				rn.scalar(d, env, p, call("sum", &EPath{Steps: []*Stp{{Axis: "attribute", Test: NodeTest{Kind: "any"}, Abbrev: true}}}), "sum-converts-with-number", "sum() applies number() to the string-value of each node", true)
+			}
 			// the node-set itself as the answer: ExecAsString / ExecAsNumber convert it as string() / number() would
 			rn.scalar(d, env, p, uo[pi%len(uo)], "nodeset-answer-unordered", "a node-set answer converts through its first node in document order (ExecAsString, ExecAsNumber)", true)
 			for k := 0; k < 3; k++ {
